@@ -21,6 +21,12 @@ def gen(rng, i):
         pool.append([hx(-1e-3, sc)] * P)
     if c["meta"]["family"] in ("exp3", "shared", "cosmix"):
         pool.append([hx(-3000.0, sc)] * P)
+    # coinciding parameters with HUGE but finite model values (e^80): an exactly / numerically rank-deficient basis of enormous
+    # norm — visiting it must leave no trace (e.g. in thresholds derived from the singular values)
+    if c["meta"]["family"] in ("exp2c", "exp1l"):
+        pool.append([hx(-0.03125, sc)] * P)
+    if c["meta"]["family"] in ("exp3", "shared", "cosmix"):
+        pool.append([hx(-30.0, sc)] * P)
     ops = []
     refs = []
     nsteps = rng.randint(4, 10)
